@@ -28,7 +28,8 @@ ASSUMPTIONS = ['index keys are the casefolded classname ("" when missing) and th
 JOBS = {'quick': 2, 'thorough': 16}
 
 CLASSES = ['info_target', 'Info_Target', 'INFO_TARGET', 'logic_relay', 'func_brush', 'ß_ent', 'worldspawn', '']
-NAMES = ['door', 'Door', 'DOOR', 'door1', 'relay', 'Relay_A', 'ß', 'SS', '', 'x*']
+NAMES = ['door', 'Door', 'DOOR', 'door1', 'relay', 'Relay_A', 'ß', 'SS', '', 'x*',
+         'info_target', 'Logic_Relay', 'FUNC_BRUSH']  # names that are also class names (search() answers for both)
 QUERIES = ['door*', 'DOOR*', 'd*', 'Rel*', 'ß*', '*', 'info_*', 'doo']  # wildcard (prefix) searches and a bare prefix
 KEY_CLASS = ['classname', 'ClassName', 'CLASSNAME']
 KEY_NAME = ['targetname', 'TargetName', 'TARGETNAME']
